@@ -18,11 +18,11 @@ from .. import lib_fm_loops as L
 
 # family -> (quick, thorough) number of programs
 PLAN = {
-    'cp/base': (14, 260), 'cp/intdiv': (4, 50), 'cp/call': (6, 90), 'cp/while': (5, 60), 'cp/select': (6, 90),
-    'cp/exitcycle': (5, 70), 'cp/section': (5, 70), 'cp/assoc': (5, 70), 'cp-unroll/base': (10, 180),
-    'cp-dce/base': (8, 140), 'dce/base': (12, 200), 'dce/intdiv': (4, 50),
-    'vars-arrays/base': (6, 100), 'vars-all/base': (5, 70),
-    'args-manual/call': (9, 150), 'args-sched/call': (9, 150), 'all-sched-arrays/call': (6, 90), 'all-sched-all/call': (4, 60),
+    'cp/base': (14, 145), 'cp/intdiv': (4, 30), 'cp/call': (6, 50), 'cp/while': (5, 35), 'cp/select': (6, 50),
+    'cp/exitcycle': (5, 40), 'cp/section': (5, 40), 'cp/assoc': (5, 40), 'cp-unroll/base': (10, 100),
+    'cp-dce/base': (8, 75), 'dce/base': (12, 110), 'dce/intdiv': (4, 30),
+    'vars-arrays/base': (6, 55), 'vars-all/base': (5, 40),
+    'args-manual/call': (9, 80), 'args-sched/call': (9, 80), 'all-sched-arrays/call': (6, 50), 'all-sched-all/call': (4, 35),
 }
 
 
